@@ -165,6 +165,16 @@ def bwCrit (fixed : Bool) (s : St) (c name : Nat) (order : Int) : List St :=
       else register s c name order (s.regl.filter (fun k => (s.objs k).name != name))
     | none => register s c name order s.regl
 
+/-- The shutdown order a `BackgroundWorker(name, handler, order...)` call uses: the first of the variadic orders, `0`
+when none is given (`len(order) > 0 && order[0] != 0` … `else 0`); further values are ignored. -/
+def effOrder : List Int → Int
+  | [] => 0
+  | o :: _ => o
+
+/-- `GetRunningBackgroundWorkers` (one critical section under the read lock): the registered workers whose `running`
+flag is set, in reversed shutdown order. -/
+def runningList (s : St) : List Nat := (s.regl.filter (fun i => (s.objs i).flag)).reverse
+
 /-! ## Start -/
 
 def startCrit (fixed : Bool) (s : St) : St :=
